@@ -91,8 +91,19 @@ def call_shapes(k, mask, loose=False):
 
 
 def call_text(shape, vals):
-    pos, named = shape
-    parts = [lit(vals[i]) for i in pos] + [f"$p{i}={lit(vals[i])}" for i in named]
+    pos, named = shape[0], shape[1]
+    layout = shape[2] if len(shape) > 2 else "positional-first"
+    p = [lit(vals[i]) for i in pos]
+    n = [f"$p{i}={lit(vals[i])}" for i in named]
+    if layout == "named-first":
+        parts = n + p
+    elif layout == "interleaved":
+        # named arguments between the positional ones: n0 p0 n1 p1 ...
+        parts = []
+        for k in range(max(len(p), len(n))):
+            parts += n[k:k + 1] + p[k:k + 1]
+    else:
+        parts = p + n
     return " ".join(parts)
 
 
@@ -142,7 +153,7 @@ def second_vals(shape, vals):
 
 
 def expected_binding(k, mask, shape, vals):
-    pos, named = shape
+    pos, named = shape[0], shape[1]
     b = {}
     for i in range(k):
         if i in pos or i in named:
@@ -158,7 +169,7 @@ def check(task):
     k, mask, shape, vals, form, ret = task
     src = program(k, mask, shape, vals, form, ret)
     res = {"programs": 1, "steps": 0, "viol": [], "defaults_used": 0, "named": len(shape[1]), "positional": len(shape[0])}
-    info = {"engine": "C08", "source": src, "task": [k, list(mask), [list(shape[0]), list(shape[1])], vals, form, ret]}
+    info = {"engine": "C08", "source": src, "task": [k, list(mask), [list(shape[0]), list(shape[1])] + list(shape[2:]), vals, form, ret]}
 
     def bad(sig, what):
         res["viol"].append((sig, what, info))
@@ -267,6 +278,36 @@ def check_param_name(nm):
     return res
 
 
+def check_mutable_default(form):
+    """a declared default that is a container: every instance that omits the argument gets the declared value, whatever an
+    earlier instance did to ITS value in place"""
+    res = {"programs": 1, "steps": 0, "viol": [], "defaults_used": 2, "named": 0, "positional": 0}
+    call = {"await-twice": "  await callee\n  await callee\n", "start-two": "  start callee\n  start callee\n",
+            "await-then-given": "  await callee\n  await callee $items=[\"g\"]\n  await callee\n"}[form]
+    # (the events carry scalars: an event argument that IS the list would show the later in-place change as well)
+    src = ('flow callee $items=[] $store={"n": 0}\n  send Echo(a=len($items), b=len($store))\n  ($items.append("x"))\n  ($store.update({"k": 1}))\n'
+           '  send Echo2(a=len($items), b=len($store))\n\n'
+           "flow main\n" + call + "  send After()\n  match Never()\n")
+    info = {"engine": "C08-mut", "source": src, "form": form}
+    try:
+        st = v2x.init_state(src)
+        v2x.step(st, v2x.resolve_event(st, ("start_main",)), [], v2x.UIDS.n)
+        res["steps"] += 1
+    except Exception as e:
+        res["viol"].append((f"mutable-default:{form}:raised", f"{type(e).__name__}: {str(e)[:120]}", info))
+        return res
+    echoes = [(e.get("a"), e.get("b")) for e in st.outgoing_events if e["type"] == "Echo"]
+    echoes2 = [(e.get("a"), e.get("b")) for e in st.outgoing_events if e["type"] == "Echo2"]
+    want = {"await-twice": [(0, 1)] * 2, "start-two": [(0, 1)] * 2, "await-then-given": [(0, 1), (1, 1), (0, 1)]}[form]
+    if form == "start-two" and len(echoes) == 1:
+        want = want[:1]      # two identical starts in one step may be one event
+    if echoes != want:
+        res["viol"].append((f"mutable-default:{form}", f"`flow callee $items=[] $store={{\"n\": 0}}` mutates its parameters in place; the instances saw {echoes}, expected {want}", info))
+    elif not echoes2 or any(a < 1 or b != 2 for a, b in echoes2):
+        res["viol"].append((f"mutable-default:{form}:harness-mutation-not-visible", f"after the in-place change the callee saw {echoes2}", info))
+    return res
+
+
 def tasks(tier):
     out = []
     kmax = 3
@@ -301,6 +342,17 @@ def tasks(tier):
                         rets = ["last", "const", "none"] if form == "assign_await" and first_combo(combo) else ["last"]
                         for ret in rets:
                             out.append((k, mask, shape, vals, form, ret))
+            # calls without parentheses that write a named argument in front of / between the positional ones
+            for shape in call_shapes(k, mask):
+                if not shape[0] or not shape[1]:
+                    continue
+                given = sorted(set(shape[0]) | set(shape[1]))
+                vals = [None] * k
+                for i, v in zip(given, (1, "s", True)):
+                    vals[i] = v
+                for layout in ("named-first", "interleaved"):
+                    for form in ("assign_await", "start_match", "activate"):
+                        out.append((k, mask, (shape[0], shape[1], layout), vals, form, "last"))
             # shapes that omit a parameter without declared default (weaker oracle, distinct non-None values)
             for shape in call_shapes(k, mask, loose=True):
                 given = sorted(set(shape[0]) | set(shape[1]))
@@ -337,6 +389,11 @@ def run(rep, tier):
             agg[k] += r[k]
         for sig, what, info in r["viol"]:
             rep.violation(sig, what, info)
+    for r in par.pmap(check_mutable_default, ["await-twice", "start-two", "await-then-given"]):
+        for k in agg:
+            agg[k] += r[k]
+        for sig, what, info in r["viol"]:
+            rep.violation(sig, what, info)
     rep.set("parameter_names_checked", len(PARAM_NAMES))
     rep.set("evaluations", agg["programs"])
     rep.set("interpreter_steps", agg["steps"])
@@ -355,6 +412,13 @@ def run(rep, tier):
 
 
 def replay(rp):
+    if rp.get("engine") == "C08-mut":
+        r = check_mutable_default(rp["form"])
+        print(rp["source"])
+        for sig, what, _i in r["viol"]:
+            print(sig, ":", what)
+        print(rp.get("what"))
+        return 0
     if rp.get("engine") == "C08-name":
         r = check_param_name(rp["param_name"])
         print(rp["source"])
@@ -363,7 +427,7 @@ def replay(rp):
         print(rp.get("what"))
         return 0
     k, mask, shape, vals, form, ret = rp["task"]
-    r = check((k, tuple(mask), (tuple(shape[0]), tuple(shape[1])), vals, form, ret))
+    r = check((k, tuple(mask), (tuple(shape[0]), tuple(shape[1])) + tuple(shape[2:]), vals, form, ret))
     print(rp["source"])
     for sig, what, _ in r["viol"]:
         print(sig, ":", what)
